@@ -127,6 +127,23 @@ def make_directory(rng, conv, tier):
             chosen = sorted(sufs[:len(ordered)], key=lambda x: base + x + '.')
         else:
             chosen = sufs[:len(ordered)]
+        if rng.random() < 0.7 and len(ordered) >= 3:
+            # a family of stems each a prefix of the next (WELL, WELL1, WELL10); the shorter ones go to damaged files of the
+            # converter's own format when there are any: whatever is done about a failed file must not reach the files whose
+            # names merely start like its name
+            family = rng.choice([['', '1', '10'], ['', '_a', '_a1'], ['', '-1', '-1-1'], ['', 'A', 'a'], ['', '1', '11']])
+            rest = [x for x in chosen if x not in family] + [x for x in sufs if x not in family and x not in chosen]
+            own = [i for i, f in enumerate(ordered) if f['kind'].startswith('damaged:' + FAMILY[conv][0])]
+            others = [i for i in range(len(ordered)) if i not in own]
+            rng.shuffle(own)
+            own.sort(key=lambda i: 'twin' in ordered[i]['kind'] or 'empty' in ordered[i]['kind'])     # files likely to fail first
+            rng.shuffle(others)
+            order_idx = own[:2] + others + own[2:]
+            new_chosen = [None] * len(ordered)
+            for k, i in enumerate(order_idx):
+                new_chosen[i] = family[k] if k < len(family) else rest[k - len(family)]
+            chosen = new_chosen
+            naming += '+prefix-family'
         for f, sfx in zip(ordered, chosen):
             f['name'] = base + sfx + f['ext']
         if '.' not in base and rng.random() < 0.35:
@@ -168,6 +185,22 @@ def make_directory(rng, conv, tier):
             if all(f['name'] != newname for f in ordered):
                 b['name'] = newname
                 placement += '/same-basename-in-two-directories'
+    # a valid file whose stem starts with the whole stem of a damaged file of the same directory (WELL and WELL-1, f03_damaged
+    # and f03_damaged_a), whatever the naming scheme: what is done about a failed file must not reach its neighbour
+    if rng.random() < 0.6:
+        bad_own = [f for f in ordered if f['kind'].startswith('damaged:' + FAMILY[conv][0]) and 'twin' not in f['kind'] and f['data'] and f['name'].endswith(f['ext'])]
+        rng.shuffle(bad_own)
+        for dmg in bad_own:
+            peers = [f for f in ordered if f['kind'].startswith('valid:') and os.path.dirname(f['name']) == os.path.dirname(dmg['name']) and f['name'].endswith(f['ext'])]
+            if not peers:
+                continue
+            v = rng.choice(peers)
+            stem = dmg['name'][:len(dmg['name']) - len(dmg['ext'])]
+            newname = stem + rng.choice(['-1', '1', '_a', ' 2', 'x', '.b']) + v['ext']
+            if all(f['name'] != newname for f in ordered):
+                v['name'] = newname
+                placement += '/valid-stem-extends-damaged-stem'
+            break
     # two inputs in one directory that differ in the extension only (WELL.dlis and WELL.DLIS: a re-delivered copy)
     same_stem = []
     if conv == 'rp66v1' and rng.random() < 0.12:
